@@ -113,6 +113,32 @@ def recoverBytes (crc : List Nat → Nat) (deser : List Nat → Option WalEntry)
   | .badCrc => .checksumError
   | e => .ok (fromEntries (r.1.filterMap deser)) r.1.length e
 
+
+/-! ### `RaftWal::append`: size limit and rotation
+
+  `append` → `check_size_limit(write_size)`: when `current_size + write_size > max_size_bytes` and
+  `auto_rotate` (the default, and what `RaftNode::with_wal` → `RaftWal::open` uses: 1 GiB) →
+  `rotate()`: `<wal>.k` → `<wal>.(k+1)` (the oldest beyond `max_rotated_files` deleted), the live file
+  renamed to `<wal>.1`, a fresh empty live file created; then the record is written to it.
+  `replay` / `from_wal` / `RaftNode::with_wal` read the live file only. -/
+
+structure WalFiles where
+  /-- bytes of the live file (`current_size` = its length) -/
+  cur : List Nat := []
+  /-- `<wal>.1`, `<wal>.2`, … -/
+  rotated : List (List Nat) := []
+  deriving DecidableEq, Repr
+
+/-- `RaftWal::append(entry)` with `p = bitcode::serialize(entry)` -/
+def walAppend (crc : List Nat → Nat) (maxSize maxRot : Nat) (w : WalFiles) (p : List Nat) : WalFiles :=
+  let r := FramedLog.encodeRec crc p
+  if w.cur.length + r.length > maxSize then
+    { cur := r, rotated := (w.cur :: w.rotated).take (max maxRot 1) }
+  else { w with cur := w.cur ++ r }
+
+def walAppendAll (crc : List Nat → Nat) (maxSize maxRot : Nat) (w : WalFiles) (ps : List (List Nat)) : WalFiles :=
+  ps.foldl (walAppend crc maxSize maxRot) w
+
 /-! ### the node -/
 
 structure LogEntry where
